@@ -92,8 +92,71 @@ def install(rt: Runtime) -> Runtime:
     ex["os.path.basename"] = fn(lambda p: p.rsplit("/", 1)[-1])
     ex["time.time"] = fn(lambda: 0.0)
 
+    # ---- re: the standard matcher applied to the concrete strings of an evaluation (never to repository code) ------
+    import re as _re
+
+    class MatchObj(Obj):
+        def __init__(self, m):
+            super().__init__("re.Match")
+            self.m = m
+            self.methods = {
+                "group": lambda ev, c, a, k: m.group(*a), "groups": lambda ev, c, a, k: m.groups(*a),
+                "start": lambda ev, c, a, k: m.start(*a), "end": lambda ev, c, a, k: m.end(*a),
+                "span": lambda ev, c, a, k: m.span(*a), "groupdict": lambda ev, c, a, k: m.groupdict(),
+            }
+            self.attrs = {"string": m.string, "lastindex": m.lastindex}
+
+        def abs_getitem(self, idx, node):
+            return self.m[idx]
+
+    def wrap_match(m):
+        return None if m is None else MatchObj(m)
+
+    class PatternObj(Obj):
+        def __init__(self, pat):
+            super().__init__("re.Pattern")
+            self.pat = pat
+            self.methods = {
+                "match": lambda ev, c, a, k: wrap_match(pat.match(*a)),
+                "fullmatch": lambda ev, c, a, k: wrap_match(pat.fullmatch(*a)),
+                "search": lambda ev, c, a, k: wrap_match(pat.search(*a)),
+                "finditer": lambda ev, c, a, k: [MatchObj(m) for m in pat.finditer(*a)],
+                "findall": lambda ev, c, a, k: pat.findall(*a),
+                "split": lambda ev, c, a, k: pat.split(*a, **k),
+                "sub": lambda ev, c, a, k: self._sub(a, k),
+            }
+            self.attrs = {"pattern": pat.pattern, "flags": pat.flags}
+
+        def _sub(self, a, k):
+            if not isinstance(a[0], str):
+                raise Unsupported("re.sub with a function replacement")
+            return self.pat.sub(*a, **k)
+
+    def re_compile(pattern, flags=0):
+        if not isinstance(pattern, str):
+            raise Unsupported("re.compile of a non-constant pattern")
+        return PatternObj(_re.compile(pattern, flags))
+
+    def re_fn(name):
+        def call(pattern, *a, **k):
+            po = pattern if isinstance(pattern, PatternObj) else re_compile(pattern, k.pop("flags", 0))
+            return po.methods[name](None, None, list(a), k)
+        return call
+    ex["re.compile"] = fn(re_compile)
+    for _n in ("match", "fullmatch", "search", "finditer", "findall", "split", "sub"):
+        ex[f"re.{_n}"] = fn(re_fn(_n))
+    ex["re.escape"] = fn(_re.escape)
+    for _f in ("IGNORECASE", "I", "MULTILINE", "M", "DOTALL", "S", "VERBOSE", "X", "ASCII", "A"):
+        ex[f"re.{_f}"] = int(getattr(_re, _f))
+
     # ---- numpy slice ----------------------------------------------------------------------------------------
     def np_full(shape, value, dtype=None):
+        r = np_full0(shape, value)
+        if isinstance(r, (Mat, Vec)) and isinstance(dtype, str):
+            r.dtype = dtype
+        return r
+
+    def np_full0(shape, value, dtype=None):
         if isinstance(shape, tuple) and len(shape) == 3:
             c = Cube([[[value] * shape[2] for _ in range(shape[1])] for _ in range(shape[0])])
             c.as_matrix = True
@@ -107,10 +170,10 @@ def install(rt: Runtime) -> Runtime:
         raise Unsupported("full shape")
 
     def np_zeros(shape, dtype=None):
-        return np_full(shape, 0)
+        return np_full(shape, 0, dtype)
 
     def np_ones(shape, dtype=None):
-        return np_full(shape, 1)
+        return np_full(shape, 1, dtype)
 
     def np_asarray(v, dtype=None):
         if isinstance(v, (Mat, Vec, Sym, Cube)):
@@ -322,7 +385,8 @@ def install(rt: Runtime) -> Runtime:
         ex[f"{mod}.amax"] = fn(np_max)
         ex[f"{mod}.sum"] = fn(np_sum)
         ex[f"{mod}.arange"] = fn(lambda n: Vec(list(range(n))))
-        ex[f"{mod}.int32"] = "int32"
+        for _dt in ("int8", "uint8", "int16", "uint16", "int32", "uint32", "int64", "uint64", "float32", "bool_"):
+            ex[f"{mod}.{_dt}"] = _dt
         ex[f"{mod}.float64"] = "float64"
         ex[f"{mod}.ndarray"] = "ndarray"
     return rt
